@@ -377,3 +377,10 @@ def run(ctx: Ctx) -> None:
         frozen_rule(ctx, 'R02.5', 'panqec.codes')
     with ctx.part():
         code_state_rule(ctx, 'R02.5')
+    with ctx.part():
+        # what a code object answers is computed from that object: nothing shared between objects (a module-level table,
+        # a default argument) is written by the members of the code classes, except a memo whose key determines the value
+        from .c06 import global_state_rule
+        base = ctx.model.cls('StabilizerCode')
+        entries = [fn for c in [base] + list(ctx.model.subclasses(base)) for fn in c.methods.values()]
+        global_state_rule(ctx, 'R02.5', entries, 'a code object is queried')
